@@ -26,6 +26,9 @@ pub enum IdRef {
     ClientId,
 }
 impl IdRef {
+    pub fn is_foreign(&self) -> bool {
+        matches!(self, IdRef::ForeignLatest(..) | IdRef::ForeignAnc(..) | IdRef::ForeignSnap(..))
+    }
     pub fn class(&self) -> &'static str {
         match self {
             IdRef::Nil => "nil",
@@ -57,6 +60,31 @@ pub enum AOp {
     GcvThenAv { ci: usize, p: IdRef, payload: PayloadSpec },
 }
 
+impl AOp {
+    pub fn client(&self) -> Option<usize> {
+        match self {
+            AOp::Av { ci, .. } | AOp::Gcv { ci, .. } | AOp::As { ci, .. } | AOp::Gs { ci } | AOp::Walk { ci } | AOp::SnapWalk { ci } | AOp::Reread { ci } | AOp::GcvThenAv { ci, .. } => Some(*ci),
+            AOp::Reopen => None,
+        }
+    }
+    /// the same operation with a foreign reference replaced by the concrete id it resolved to in another run
+    pub fn pinned(&self, concrete: Option<Uuid>) -> AOp {
+        let pin = |r: &IdRef| -> IdRef {
+            match (r.is_foreign(), concrete) {
+                (true, Some(u)) => IdRef::Fresh(u),
+                _ => r.clone(),
+            }
+        };
+        match self {
+            AOp::Av { ci, p, payload, cuts } => AOp::Av { ci: *ci, p: pin(p), payload: payload.clone(), cuts: *cuts },
+            AOp::Gcv { ci, p } => AOp::Gcv { ci: *ci, p: pin(p) },
+            AOp::As { ci, v, payload, cuts } => AOp::As { ci: *ci, v: pin(v), payload: payload.clone(), cuts: *cuts },
+            AOp::GcvThenAv { ci, p, payload } => AOp::GcvThenAv { ci: *ci, p: pin(p), payload: payload.clone() },
+            o => o.clone(),
+        }
+    }
+}
+
 /// What the harness knows about one run (from the implementation's own answers).
 #[derive(Clone, Default)]
 pub struct Known {
@@ -79,6 +107,8 @@ impl Known {
     }
     pub fn resolve(&mut self, ci: usize, r: &IdRef) -> Uuid {
         let n = self.clients.len();
+        // the k-th OTHER client (never the client itself)
+        let other = |k: &usize| -> usize { if n < 2 { ci } else { (ci + 1 + (*k % (n - 1))) % n } };
         let id = match r {
             IdRef::Nil => Uuid::nil(),
             IdRef::Latest => self.chain[ci].last().cloned().unwrap_or(Uuid::nil()),
@@ -96,16 +126,16 @@ impl Known {
             IdRef::Base(fb) => self.base[ci].unwrap_or(*fb),
             IdRef::Snap(fb) => self.snap[ci].unwrap_or(*fb),
             IdRef::Fresh(u) => *u,
-            IdRef::ForeignLatest(k, fb) => self.chain[(ci + 1 + k) % n].last().cloned().unwrap_or(*fb),
+            IdRef::ForeignLatest(k, fb) => if n < 2 { *fb } else { self.chain[other(k)].last().cloned().unwrap_or(*fb) },
             IdRef::ForeignAnc(k, d, fb) => {
-                let ch = &self.chain[(ci + 1 + k) % n];
-                if ch.len() > *d {
+                let ch = &self.chain[other(k)];
+                if n >= 2 && ch.len() > *d {
                     ch[ch.len() - 1 - d]
                 } else {
                     *fb
                 }
             }
-            IdRef::ForeignSnap(k, fb) => self.snap[(ci + 1 + k) % n].unwrap_or(*fb),
+            IdRef::ForeignSnap(k, fb) => if n < 2 { *fb } else { self.snap[other(k)].unwrap_or(*fb) },
             IdRef::ClientId => self.clients[ci],
         };
         self.note(id);
@@ -136,6 +166,8 @@ pub struct GenCfg {
     pub final_walks: bool,
     pub reread_every: usize,
     pub snapwalk_after_write: bool,
+    /// percentage of histories that start with the scripted cross-client prefix (ids of one client quoted by another)
+    pub cross_prefix_pct: usize,
 }
 impl Default for GenCfg {
     fn default() -> Self {
@@ -149,6 +181,7 @@ impl Default for GenCfg {
             final_walks: true,
             reread_every: 0,
             snapwalk_after_write: false,
+            cross_prefix_pct: 10,
         }
     }
 }
@@ -193,6 +226,21 @@ pub fn gen_history(r: &mut Rng, g: &GenCfg) -> History {
     let nonnil: Vec<bool> = (0..nc).map(|_| r.chance(g.nonnil_base_pct, 100)).collect();
     let bases: Vec<Uuid> = (0..nc).map(|_| r.uuid()).collect();
     let mut ops = vec![];
+    if nc >= 2 && r.chance(g.cross_prefix_pct, 100) {
+        // B builds a chain and snapshots its latest; A then starts ITS chain on B's latest id and snapshots at that base
+        let (a, b) = (0usize, 1usize);
+        for _ in 0..1 + r.below(3) {
+            ops.push(AOp::Av { ci: b, p: IdRef::Latest, payload: PayloadSpec::small(r), cuts: r.next() });
+        }
+        ops.push(AOp::As { ci: b, v: IdRef::Latest, payload: PayloadSpec::small(r), cuts: r.next() });
+        ops.push(AOp::Av { ci: a, p: IdRef::ForeignLatest(0, r.uuid()), payload: PayloadSpec::small(r), cuts: r.next() });
+        ops.push(AOp::As { ci: a, v: IdRef::Base(r.uuid()), payload: PayloadSpec::small(r), cuts: r.next() });
+        ops.push(AOp::Gs { ci: b });
+        ops.push(AOp::Gs { ci: a });
+        ops.push(AOp::Av { ci: a, p: IdRef::Latest, payload: PayloadSpec::small(r), cuts: r.next() });
+        ops.push(AOp::As { ci: a, v: IdRef::Latest, payload: PayloadSpec::small(r), cuts: r.next() });
+        ops.push(AOp::Gs { ci: b });
+    }
     for i in 0..nops {
         let ci = r.below(nc);
         match r.weighted(&g.w_ops) {
